@@ -213,6 +213,17 @@ T = [
      "        let unwrapping = (!self.returns_unit())\n            .then(|| quote! { .unwrap_or_else(|e| panic!(\"{}\", e)) });", "        let unwrapping = (!self.returns_unit())\n            .then(|| quote! { .unwrap_or_default() });"),
     ("c19_then_registered_as_when", "C19/R2", "codegen/src/attribute.rs",
      "        format_ident!(\"{}\", to_pascal_case(self.attr_name))", "        format_ident!(\n            \"{}\",\n            to_pascal_case(if self.attr_name == \"then\" {\n                \"when\"\n            } else {\n                self.attr_name\n            })\n        )"),
+    # ---- behaviour-preserving refactorings: the checks must stay SILENT on these (expect = "silent:<PIDs>")
+    ("equiv_c15_filter_as_if_let", "silent:C15", "src/cucumber.rs",
+     "            re_filter.as_ref().map_or_else(\n                || {\n                    tags_filter.as_ref().map_or_else(\n                        || filter(feat, rule, scenario),\n                        |tags| {\n                            // The order `Feature` -> `Rule` -> `Scenario`\n                            // matters here.\n                            tags.eval(\n                                feat.tags\n                                    .iter()\n                                    .chain(rule.iter().flat_map(|r| &r.tags))\n                                    .chain(scenario.tags.iter()),\n                            )\n                        },\n                    )\n                },\n                |re| re.is_match(&scenario.name),\n            )",
+     "            if let Some(re) = re_filter.as_ref() {\n                re.is_match(&scenario.name)\n            } else if let Some(tags) = tags_filter.as_ref() {\n                tags.eval(\n                    feat.tags\n                        .iter()\n                        .chain(rule.iter().flat_map(|r| &r.tags))\n                        .chain(scenario.tags.iter()),\n                )\n            } else {\n                filter(feat, rule, scenario)\n            }"),
+    ("equiv_c01_verdict_with_matches", "silent:C01,C12", SUMM,
+     "                if retries\n                    .filter(|r| {\n                        r.left > 0 && !matches!(err, event::StepError::NotFound)\n                    })\n                    .is_some()\n                {",
+     "                if retries.is_some_and(|r| {\n                    r.left > 0 && !matches!(err, event::StepError::NotFound)\n                }) {"),
+    ("equiv_c04_idle_yield_first", "silent:C04,C07,C06,C08", B,
+     "            if features.is_finished(started_scenarios.is_break()).await {\n                break;\n            }\n", "            let done =\n                features.is_finished(started_scenarios.is_break()).await;\n            if done {\n                break;\n            }\n"),
+    ("equiv_c02_rename_helper", "silent:C02,C05,C09,C10", B,
+     "    fn emit_failed_events(", "    fn emit_deferred_failure(\n//+\n                self.emit_failed_events(\n//=\n                self.emit_deferred_failure("),
     # ---- C10
     ("c10_world_new_outside_catch", "C10/R1", B,
      "                match AssertUnwindSafe(async { W::new().await })\n                    .catch_unwind()\n                    .then_yield()\n                    .await\n                {\n                    Ok(Ok(w)) => w,",
@@ -291,7 +302,10 @@ def main():
             open(p, "w").write(s)
             d = sh(["git", "-C", wt, "diff"])
             with open(os.path.join(HERE, name + ".patch"), "w") as f:
-                f.write(f"# expect: {expect}\n# control: one-instance breakage of rule {expect}; must compile; generated by controls/make.py\n")
+                if expect.startswith("silent:"):
+                    f.write(f"# expect-silent: {expect[7:]}\n# control: behaviour-preserving refactoring; the named checks must stay silent; generated by controls/make.py\n")
+                else:
+                    f.write(f"# expect: {expect}\n# control: one-instance breakage of rule {expect}; must compile; generated by controls/make.py\n")
                 f.write(d.stdout)
             n += 1
     finally:
